@@ -12,7 +12,8 @@ VARIABLE l
 
 F(name, ok) == IF ok THEN {} ELSE {name}
 SeqMax(sq) == FoldSeq(LAMBDA x, y : IF x > y THEN x ELSE y, 0, sq)
-AbsSt(j) == [roots |-> ToSet(j.roots), ridx |-> j.ridx, cfg |-> j.cfg, seen |-> ToSet(j.seen), top |-> SeqMax(j.seen)]
+AbsSt(j) == [roots |-> ToSet(j.roots), ridx |-> j.ridx, cfg |-> j.cfg, seen |-> ToSet(j.seen), top |-> SeqMax(j.seen),
+             active |-> j.active, signer |-> j.signer]
 AbsCmd(c) == IF "roots" \in DOMAIN c THEN [c EXCEPT !.roots = ToSet(@)] ELSE c
 
 MustRefuse(why) ==
@@ -32,6 +33,7 @@ LeafGeneric(pre, cert) ==
   \cup F("SerialIncreasing", cert.serial > pre.top)
   \cup F("leaf-chain", cert.verifies /\ cert.issuer_active)
   \cup F("leaf-no-email", cert.emails = 0)
+  \cup (IF Len(cert.ids) = 1 THEN F("leaf-trust-domain", InOwnTrustDomain(cert.ids[1])) ELSE {})
 
 \* the identity parsed FROM THE CERTIFICATE is the identity that was authorized
 LeafIdentity(id, cert) ==
@@ -46,15 +48,35 @@ SignJudge(pre, c, res, post) ==
   \cup (IF issued THEN LeafGeneric(pre, res.cert) ELSE {})
   \cup (IF issued /\ d.d # "refuse" THEN LeafIdentity(d.id, res.cert) ELSE {})
   \cup F("sign-keeps-roots", post.roots = pre.roots /\ post.cfg = pre.cfg)
+  \cup F("signer-is-active", post.signer = post.active)
 
-\* a rotation through CAManager.UpdateConfiguration: every old root stays, inactive; exactly one new, active
+\* the probe leaf requested right after a (re)configuration, from the manager as it then is: it must be
+\* issued (the provider in use works, whether the operation succeeded or failed) and satisfy every leaf predicate
+\* against the store's ACTIVE root
+ProbeJudge(pre, res) ==
+  IF res.probe.t # "issued" THEN {"probe-issued"}
+  ELSE LeafGeneric(pre, res.probe.cert)
+
+\* a rotation through CAManager.UpdateConfiguration (primaryUpdateRootCA): every old root stays, inactive; exactly
+\* one new, active.  When a RacingRootWrite was committed in front of the manager's conditional write (res.raced)
+\* the manager must either report an error and leave roots and configuration alone, or retry and rotate.
+\* Either way the root the manager signs with is the store's active root afterwards.
 RotateJudge(pre, res, post) ==
-  IF res.t = "ok" THEN
+  (IF res.t = "ok" THEN
     LET old == {q.id : q \in pre.roots}  newr == {r \in post.roots : r.id \notin old} IN
     F("rotate-state", /\ Cardinality(newr) = 1 /\ \A r \in newr : r.active
                       /\ \A q \in pre.roots : [q EXCEPT !.active = FALSE] \in post.roots
                       /\ Cardinality(post.roots) = Cardinality(pre.roots) + 1)
-  ELSE F("failed-rotate-keeps-roots", post.roots = pre.roots)
+   ELSE F("failed-rotate-keeps-roots", SameRootsAndConfig(pre, post) /\ post.signer = pre.signer))
+  \cup F("rotate-unraced-succeeds", res.raced \/ res.t = "ok")
+  \cup F("signer-is-active", post.signer = post.active)
+  \cup ProbeJudge(pre, res)
+
+\* a reconfiguration that keeps the root (CAOpSetConfig only)
+ReconfigJudge(pre, res, post) ==
+       F("reconfig-keeps-roots", post.roots = pre.roots)
+  \cup F("signer-is-active", post.signer = post.active)
+  \cup ProbeJudge(pre, res)
 
 RootJudge(pre, c, res, post) ==
   LET r == ApplyRoot(pre, c) IN
@@ -71,7 +93,7 @@ Verdict(i) ==
       c == AbsCmd(e.cmd)
   IN (CASE c.t = "sign" -> SignJudge(pre, c, e.res, post)
         [] c.t = "rotate" -> RotateJudge(pre, e.res, post)
-        [] c.t = "reconfig" -> F("reconfig-keeps-roots", post.roots = pre.roots)
+        [] c.t = "reconfig" -> ReconfigJudge(pre, e.res, post)
         [] c.t = "inc-serial" ->
              F("RootSetAtomic", RootsReplacedOrKept(pre, c, post))
              \cup (IF e.res.t = "serial" THEN F("SerialFresh", e.res.serial \notin pre.seen) \cup F("SerialIncreasing", e.res.serial > pre.top)
